@@ -369,6 +369,8 @@ fn session(rng: &mut Rng, stats: &mut Stats, nontrivial: &mut Vec<u64>) -> Resul
     let uris = ["file:///a.bas", "file:///b.bas", "file:///dir/c%20d.bas"];
     let n_uris = 1 + rng.usize(3);
     let mut latest: Vec<Option<String>> = vec![None; n_uris];
+    // document versions the way an editor counts them: 1 at every didOpen, +1 per change (so they start over after a re-open)
+    let mut version: Vec<u64> = vec![0; n_uris];
     let n_msgs = 3 + rng.usize(38);
     // keystroke mode: successive prefixes of one program
     let keystroke = rng.chance(1, 4);
@@ -386,9 +388,11 @@ fn session(rng: &mut Rng, stats: &mut Stats, nontrivial: &mut Vec<u64>) -> Resul
                 let text = if rng.chance(1, 3) { document(rng) } else { format!("10 PRINT \"burst {} {}\" + {}", k, j, rng.s(&["1", "\"x\"", "é", "Q"])) };
                 let doc_json = json!({"uri": uri, "text": text.split('\n').collect::<Vec<_>>(), "message_index": k, "burst_index": j, "burst_len": n_burst});
                 if latest[u].is_none() {
+                    version[u] = 1;
                     srv.notify("textDocument/didOpen", json!({"textDocument": {"uri": uri, "languageId": "basic", "version": 1, "text": text}}))
                 } else {
-                    srv.notify("textDocument/didChange", json!({"textDocument": {"uri": uri, "version": 1000 * (k + 2) + j}, "contentChanges": [{"text": text}]}))
+                    version[u] += 1;
+                    srv.notify("textDocument/didChange", json!({"textDocument": {"uri": uri, "version": version[u]}, "contentChanges": [{"text": text}]}))
                 }
                 .map_err(|e| ("server-gone".to_string(), format!("server stopped reading in a burst at document #{}: {}", k, e), doc_json.clone()))?;
                 latest[u] = Some(text.clone());
@@ -467,16 +471,61 @@ fn session(rng: &mut Rng, stats: &mut Stats, nontrivial: &mut Vec<u64>) -> Resul
             srv.notify("textDocument/didClose", json!({"textDocument": {"uri": uri}})).map_err(inc)?;
         }
         if latest[u].is_none() || reopen {
+            version[u] = 1;
             srv.notify("textDocument/didOpen", json!({"textDocument": {"uri": uri, "languageId": "basic", "version": 1, "text": text}}))
         } else {
-            srv.notify("textDocument/didChange", json!({"textDocument": {"uri": uri, "version": k + 2}, "contentChanges": [{"text": text}]}))
+            version[u] += 1;
+            srv.notify("textDocument/didChange", json!({"textDocument": {"uri": uri, "version": version[u]}, "contentChanges": [{"text": text}]}))
         }
         .map_err(|e| ("server-gone".to_string(), format!("server stopped reading before document #{}: {}", k, e), doc_json.clone()))?;
         latest[u] = Some(text.clone());
-        let diag = match srv.wait_for(|v| v.get("method").and_then(|m| m.as_str()) == Some("textDocument/publishDiagnostics") && v.pointer("/params/uri").and_then(|x| x.as_str()) == Some(uri)) {
-            Ok(v) => v,
-            Err(Wait::Died(st)) => return Err(("server-died".into(), format!("the server died on a document ({})", st), doc_json)),
-            Err(Wait::Timeout) => return Err(inc(format!("no diagnostics within {:?} while the server is alive", WAIT))),
+        // the notification is followed at once by a semantic-token request for the same document: a barrier. Messages
+        // are taken off the wire in order, so when the response arrives the notification has been read; its answer
+        // (publishDiagnostics) must then be there (or follow within the grace period). No verdict rests on a timeout.
+        let barrier_id = srv.request("textDocument/semanticTokens/full", json!({"textDocument": {"uri": uri}})).map_err(inc)?;
+        let is_my_publish = |v: &Value| v.get("method").and_then(|m| m.as_str()) == Some("textDocument/publishDiagnostics") && v.pointer("/params/uri").and_then(|x| x.as_str()) == Some(uri);
+        let mut diag: Option<Value> = None;
+        let token_resp: Value;
+        loop {
+            match srv.rx.recv_timeout(WAIT) {
+                Ok(v) => {
+                    if is_my_publish(&v) {
+                        diag = Some(v);
+                    } else if v.get("id").and_then(|x| x.as_u64()) == Some(barrier_id) {
+                        token_resp = v;
+                        break;
+                    }
+                }
+                Err(_) => {
+                    return match srv.child.try_wait() {
+                        Ok(Some(st)) => Err(("server-died".into(), format!("the server died on a document ({:?})", st), doc_json)),
+                        _ => Err(inc(format!("no response to a semantic token request within {:?} while the server is alive", WAIT))),
+                    };
+                }
+            }
+        }
+        if diag.is_none() {
+            let grace = std::time::Instant::now() + Duration::from_secs(3);
+            loop {
+                let left = grace.saturating_duration_since(std::time::Instant::now());
+                if left.is_zero() {
+                    break;
+                }
+                match srv.rx.recv_timeout(left) {
+                    Ok(v) if is_my_publish(&v) => {
+                        diag = Some(v);
+                        stats.late_publishes += 1;
+                        break;
+                    }
+                    Ok(_) => {}
+                    Err(_) => break,
+                }
+            }
+        }
+        let Some(diag) = diag else {
+            return Err(("notification-not-answered".into(),
+                format!("a {} for {} (version {}) was followed by a request that has been answered, but no publishDiagnostics for it arrived", if version[u] == 1 { "didOpen" } else { "didChange" }, uri, version[u]),
+                doc_json));
         };
         let n_got = check_publish(&diag, &text, &doc_json, stats)?;
         let lines: Vec<&str> = text.split('\n').collect();
@@ -492,12 +541,7 @@ fn session(rng: &mut Rng, stats: &mut Stats, nontrivial: &mut Vec<u64>) -> Resul
         // semantic tokens for some documents (always for the latest text of that uri)
         let huge_line = text.split('\n').any(|l| l.len() > 4_000);
         if rng.chance(2, 3) && !huge_line {
-            let id = srv.request("textDocument/semanticTokens/full", json!({"textDocument": {"uri": uri}})).map_err(inc)?;
-            let resp = match srv.wait_for(|v| v.get("id").and_then(|x| x.as_u64()) == Some(id)) {
-                Ok(v) => v,
-                Err(Wait::Died(st)) => return Err(("server-died".into(), format!("the server died on a semantic token request ({})", st), doc_json)),
-                Err(Wait::Timeout) => return Err(inc("no semantic token response while the server is alive".into())),
-            };
+            let resp = token_resp;
             stats.token_requests += 1;
             let data: Vec<u64> = resp.pointer("/result/data").and_then(|x| x.as_array()).map(|a| a.iter().map(|v| v.as_u64().unwrap_or(u64::MAX)).collect()).unwrap_or_default();
             if data.len() % 5 != 0 {
